@@ -177,6 +177,31 @@ def sync_jobs(items, thorough, max_exec=4000):
     return jobs
 
 
+def _digit_free(scen):
+    return not any(ch.isdigit() for s in scen["sims"] for ch in s["sid"])
+
+
+def vshape_jobs(items, thorough, max_exec=800):
+    """Value shapes on the wire (mc/vshape.py): numbers including the falsy values 0, "", False,
+    [] and {}, and dictionaries with step-dependent key sets, instead of string tokens.  The
+    monitors see the decoded tokens, so every oracle (and C04's comparison of views across
+    configurations) applies unchanged."""
+    jobs = []
+    for name, scen in items:
+        if not _digit_free(scen):
+            continue        # a token like M12 would be ambiguous
+        for shape in ("num", "dict"):
+            for cache in (True, False):
+                for lazy in ((True, False) if thorough else (True,)):
+                    cfg = dict(lazy=lazy, cache=cache, vshape=shape)
+                    jobs.append(dict(name=name, scen=scen, cfg=cfg, budget=0, max_exec=max_exec))
+                    if thorough and scen.get("max_budget", 1) >= 1:
+                        jobs.append(dict(name=name, scen=scen, cfg=cfg, budget=1, max_exec=max_exec * 4))
+                jobs.append(dict(name=name, scen=scen, cfg=dict(lazy=True, cache=cache, vshape=shape,
+                                                                sync="all"), budget=0, max_exec=10))
+    return jobs
+
+
 def quick_jobs(seed=0):
     jobs = []
     for name, scen in scenarios.CATALOGUE.items():
@@ -187,6 +212,7 @@ def quick_jobs(seed=0):
                 jobs.append(dict(name=name, scen=scen, cfg=cfg, budget=b,
                                  max_exec=6000))
     jobs += sync_jobs(scenarios.CATALOGUE.items(), thorough=False)
+    jobs += vshape_jobs(scenarios.CATALOGUE.items(), thorough=False)
     # a slice of the generated family (the first scenarios of the thorough tier's window)
     fs, fam2, _, fam3, _ = gen_families(seed)
     q2 = fam2[:int(os.environ.get("VERIF_QGEN2", "160"))]
@@ -233,6 +259,7 @@ def thorough_jobs(seed=0):
             for b in (0, 1, 2):
                 jobs.append(dict(name=name, scen=scen, cfg=cfg, budget=b, max_exec=20000))
     jobs += sync_jobs(scenarios.CATALOGUE.items(), thorough=True)
+    jobs += vshape_jobs(scenarios.CATALOGUE.items(), thorough=True)
     fs, fam2, tot2, fam3, tot3 = gen_families(seed)
     jobs += sync_jobs([(f"gen2-{fs}-{i}", sc) for i, sc in enumerate(fam2)], thorough=False,
                       max_exec=2000)
